@@ -199,7 +199,7 @@ def make_shims() -> Shims:
     return s
 
 
-def run_app(iface: str, app_kind: str, path, dirmode: str = "abs"):
+def run_app(iface: str, app_kind: str, path, dirmode: str = "abs", mount: str = ""):
     RecFile.opened = []
     RecRedirect.targets = []
     mod = WS if iface == "wsgi" else AS
@@ -215,7 +215,7 @@ def run_app(iface: str, app_kind: str, path, dirmode: str = "abs"):
     try:
         if iface == "wsgi":
             calls = []
-            body = app({"REQUEST_METHOD": "GET", "PATH_INFO": path, "SCRIPT_NAME": ""}, lambda s, h, e=None: calls.append(s))
+            body = app({"REQUEST_METHOD": "GET", "PATH_INFO": path, "SCRIPT_NAME": mount}, lambda s, h, e=None: calls.append(s))
             list(body)
             status = int(calls[0].split()[0])
         else:
@@ -226,7 +226,7 @@ def run_app(iface: str, app_kind: str, path, dirmode: str = "abs"):
 
             async def receive():
                 return {"type": "http.disconnect"}
-            drive(app({"type": "http", "method": "GET", "path": path, "root_path": "", "headers": []}, receive, send))
+            drive(app({"type": "http", "method": "GET", "path": path, "root_path": mount, "headers": []}, receive, send))
             status = sent[0]["status"]
     except HTTPException as ex:
         status = ex.status_code
@@ -306,7 +306,7 @@ def job_path(job) -> report.JobResult:
     def fn():
         try:
             try:
-                got = run_app(iface, app_kind, path, job.get("dirmode", "abs"))
+                got = run_app(iface, app_kind, path, job.get("dirmode", "abs"), job.get("mount", ""))
             finally:
                 sympath.CWD = "/srv"
             err = None
@@ -349,8 +349,8 @@ def job_path(job) -> report.JobResult:
                 if status != 307 or len(redirects) != 1 or opened:
                     raise Fail("directory-without-slash-not-redirected", f"status {status}")
                 tgt = redirects[0]
-                if not same_text(e, tgt.path, SStr(path.items + [47])):
-                    raise Fail("redirect-target-wrong")
+                if not same_text(e, tgt.path, SStr([ord(c) for c in job.get("mount", "")] + path.items + [47])):
+                    raise Fail("redirect-target-wrong")  # "the same URL plus '/'": the mount point (SCRIPT_NAME / root_path) is part of that URL
                 tp = _items_of(tgt.path)
                 if not tgt.host_kept and len(tp) >= 2 and e.check(z3.And(term_of(tp[0]) == 47, term_of(tp[1]) == 47)):
                     # without an authority a Location starting with '//' IS an authority: the redirect leaves the site
@@ -365,7 +365,7 @@ def job_path(job) -> report.JobResult:
         if klass != "redirect-target-is-a-network-path":  # that verdict comes with its own model (the last check)
             e.last_sat = False
         m = e.witness()
-        wit = {"iface": iface, "app": app_kind, "path": conc(path, m), "dirmode": job.get("dirmode", "abs")}
+        wit = {"iface": iface, "app": app_kind, "path": conc(path, m), "dirmode": job.get("dirmode", "abs"), "mount": job.get("mount", "")}
         with shims.off():
             cp = concrete_path(wit)
         if klass is not None:
@@ -509,7 +509,7 @@ def concrete_path(w) -> Optional[str]:
         try:
             if iface == "wsgi":
                 calls = []
-                env = {"REQUEST_METHOD": "GET", "PATH_INFO": path, "SCRIPT_NAME": "", "wsgi.url_scheme": "http", "SERVER_NAME": "h", "SERVER_PORT": "80", "QUERY_STRING": ""}
+                env = {"REQUEST_METHOD": "GET", "PATH_INFO": path, "SCRIPT_NAME": w.get("mount", ""), "wsgi.url_scheme": "http", "SERVER_NAME": "h", "SERVER_PORT": "80", "QUERY_STRING": ""}
                 body = b"".join(app(env, lambda s, h, e=None: calls.append((s, h))))
                 status = int(calls[0][0].split()[0])
                 loc = dict((k.lower(), v) for k, v in calls[0][1]).get("location")
@@ -522,7 +522,7 @@ def concrete_path(w) -> Optional[str]:
 
                 async def receive():
                     return {"type": "http.disconnect"}
-                asyncio.run(app({"type": "http", "method": "GET", "path": path, "root_path": "", "headers": [], "scheme": "http", "server": ("h", 80), "query_string": b""}, receive, send))
+                asyncio.run(app({"type": "http", "method": "GET", "path": path, "root_path": w.get("mount", ""), "headers": [], "scheme": "http", "server": ("h", 80), "query_string": b""}, receive, send))
                 status = sent[0]["status"]
                 body = b"".join(m.get("body", b"") for m in sent[1:])
                 loc = dict((k.decode().lower(), v.decode()) for k, v in sent[0].get("headers", [])).get("location")
@@ -541,7 +541,7 @@ def concrete_path(w) -> Optional[str]:
             if status != 307:
                 return f"status {status}; expected redirect to path + '/'"
             from urllib.parse import quote
-            qp = quote(path + "/", safe="/#%[]=:;$&()+,!?*@'~")
+            qp = quote(w.get("mount", "") + path + "/", safe="/#%[]=:;$&()+,!?*@'~")
             if loc is None or not loc.endswith(qp):
                 return f"redirect location {loc!r} for path {path!r}"
             if path.startswith("/"):
@@ -586,6 +586,10 @@ def jobs(tier: str):
             for n in range(0, (5 if thorough else 4) + 1):
                 out.append(dict(name=f"{iface}/{app}/{n}+html", iface=iface, app=app, n=n, post=".html", weight=4 ** n))
             # a path segment longer than NAME_MAX (the concrete prefix fills it; the symbolic characters decide where it ends)
+            # the app mounted below a prefix (Subpaths / a server-side mount): the directory redirect keeps the mount point
+            if app == "pages":
+                for n in (1, 2):
+                    out.append(dict(name=f"{iface}/{app}/mounted/free{n + 1}", iface=iface, app=app, n=n, pre="/", mount="/m", weight=4 ** n))
             # directory configured as a relative path, working directory changed afterwards
             for n in range(0, 3 if thorough else 2):
                 out.append(dict(name=f"{iface}/{app}/reldir/free{n + 1}", iface=iface, app=app, n=n, pre="/", dirmode="rel", weight=4 ** n))
